@@ -299,4 +299,13 @@ def r_horizon_bounds_ends(ctx):
     tasks.r_horizon(ctx)
 
 
-RULES = [r_extract, r_horizon_report, r_calendar, r_view_symmetry, r_marker, r_requirement_interval, r_horizon_bounds_ends]
+def r_unscheduled_is_parked(ctx):
+    """'tasks reported as not scheduled carry no assignment': the reporters list an assignment when the busy interval is
+    non-negative, and a busy interval follows the task's start and end - so start AND end (and the duration) of an unscheduled
+    optional task must be pinned to its negative point: the unscheduled branch of Task.set_assertions (R-SET-ASSERTIONS)"""
+    from rules import tasks
+    tasks.r_task_oblig(ctx, mode="implies", rule="R-SET-ASSERTIONS", obligations=False)
+
+
+RULES = [r_extract, r_horizon_report, r_calendar, r_view_symmetry, r_marker, r_requirement_interval, r_horizon_bounds_ends,
+         r_unscheduled_is_parked]
